@@ -572,6 +572,7 @@ LoopIter ==
 (* "MG" / "ME" / "MC": the call is its last use (it is moved into the callee) while a global / a list in a     *)
 (* global / a closure in a global still holds the object.                                                      *)
 SweepPats == << "($p $v)", "($p $v 0)", "($p $v 1)", "($p $v 1 9)", "($p $v 0 1)", "($p 0 $v)", "($p 9 $v)", "($p $v $v)",
+                "($p $v 0 $v)", "($p $v 1 $v)",
                 "($p $v 'k)", "($p $v 1 'k)", "($p $v \"a\")", "($p $v #\\a)", "($p $v (list 7 8))", "($p (list 7 8) $v)",
                 "($p (lambda (a) a) $v)", "($p (lambda (a b) a) $v)", "($p (lambda (a b) a) 0 $v)", "($p $v (lambda (a) a))" >>
 InitSweep ==
